@@ -9,6 +9,8 @@
 From Coq Require Import ZArith List Bool.
 From FT Require Import Base.Dict Model.Edit Model.EditExec Proofs.EditInv Proofs.EditUserEdge Proofs.EditUserEdgeCor Props.C03.
 From FT Require Proofs.EditSwap.
+From FT Require Proofs.EditNodeBasic Proofs.EditBook Proofs.EditUDN Proofs.EditUAN Proofs.EditWFEdge.
+From FT Require Gen.History_gen Proofs.HistoryGen Props.C02.
 Import ListNotations.
 Open Scope Z_scope.
 
@@ -42,6 +44,59 @@ Proof. exact step_edge_ops_refused_unchanged. Qed.
 
 (* non-vacuity: refusals on the fixture forest of Props/C03.v leave it untouched,
    also the forced refusal that used to remove the merge edge first (finding F-11b) *)
+(* ---- UserDeleteNode: on a well-formed state every refusal (pixels without an array / outside it,
+        unknown node) returns exactly the state it was given ---- *)
+Theorem C11_delete_node : forall st n pxo top e st',
+  W_dict st -> W_forest st -> W_trk st -> W_book st -> W_seg st ->
+  user_delete_node st n pxo top = Err e st' -> st' = st.
+Proof. exact EditUDN.udn_top_refused_unchanged_wseg. Qed.
+
+(* the complete list of its errors (without W_seg one late error remains: no pixels given and the
+   node's own frame missing from the array - excluded by W_seg) *)
+Theorem C11_delete_node_errors : forall st n pxo top e st',
+  W_dict st -> W_forest st -> W_trk st -> W_book st ->
+  (is_node st n -> EditNodeBasic.px_ok st (get_pixels st n)) ->
+  user_delete_node st n pxo top = Err e st' ->
+  st' = st /\ (px_check st pxo = Some e \/ (px_check st pxo = None /\ e = ENetworkX /\ ~ is_node st n)).
+Proof. exact EditUDN.udn_top_refused_unchanged. Qed.
+
+(* ---- UserAddNode: every error is one of the six refusals, each raised before the first sub-edit:
+        graph, array, features, history, refresh log, counters and lineage lookup are equal, the track
+        lookup has the same keys and each entry is a permutation of the old one (get_track_neighbors
+        sorts the entry it reads; C16 states the same for the query itself) ---- *)
+Theorem C11_add_node : forall st n a px force top e st',
+  W_dict st -> W_forest st -> W_trk st -> W_book st -> EditBook.rp_disjoint st -> EditUAN.attrs_ok a ->
+  user_add_node st n a px force top = Err e st' ->
+  EditUAN.uan_refused st n a px force = Some e /\ EditUAN.untouched st st' /\
+  (EditUAN.uan_early st n a = true -> st' = st).
+Proof. exact EditUAN.user_add_node_error_cases. Qed.
+
+(* ... and conversely each refusal condition raises, whatever the state (no invariant needed) *)
+Theorem C11_add_node_refusals : forall st n a px force e,
+  EditUAN.uan_refused st n a px force = Some e ->
+  exists st', user_add_node_core st n a px force = Err e st' /\ EditUAN.untouched st st'.
+Proof. exact EditUAN.uan_refused_unchanged. Qed.
+
+(* edge-level refusals, restated with the full invariant: the state is returned as it was *)
+Theorem C11_edge_calls : forall st, WF st ->
+  (forall u v top e st', user_delete_edge st u v top = Err e st' -> st' = st /\ WF st') /\
+  (forall u v force top e st', user_add_edge st u v force top = Err e st' -> st' = st /\ WF st') /\
+  (forall n1 n2 e st', user_swap st n1 n2 = Err e st' -> st' = st /\ WF st').
+Proof. exact EditWFEdge.refused_WF. Qed.
+
+(* ---- undo / redo: the history mechanism this property quantifies over (Tracks.undo / redo,
+        ActionHistory) is, in the model, the code translated on every run from the current
+        actions/action_history.py (Gen/History_gen.v); C02_timeline states what it guarantees ---- *)
+Theorem C11_history_is_generated : forall st a dA,
+  (let h := fst (FT.Gen.History_gen.add_new_action state action (FT.Proofs.HistoryGen.to_hist st) a st) in
+   undo_stack (hist_add st a) = FT.Gen.History_gen.undo_stack _ _ h /\ redo_stack (hist_add st a) = FT.Gen.History_gen.redo_stack _ _ h) /\
+  (let gr := FT.Gen.History_gen.undo state action FT.Proofs.HistoryGen.inv_total dA (FT.Proofs.HistoryGen.to_hist st) in
+   match undo st with
+   | Ok b s' => snd gr = b /\ undo_stack s' = FT.Gen.History_gen.undo_stack _ _ (fst gr) /\ redo_stack s' = FT.Gen.History_gen.redo_stack _ _ (fst gr)
+   | Err _ _ => True
+   end).
+Proof. exact FT.Props.C02.C02_edit_machine_uses_generated. Qed.
+
 Example C11_nonvacuous :
   fst (step fx (OAddEdge 1 6 true)) = fx /\ fst (snd (step fx (OAddEdge 1 6 true))) = 10 /\
   fst (step fx (OAddEdge 1 5 true)) = fx /\ fst (snd (step fx (OAddEdge 1 5 true))) = 10 /\
@@ -54,3 +109,9 @@ Print Assumptions C11_add_edge.
 Print Assumptions C11_update_attrs.
 Print Assumptions C11_swap.
 Print Assumptions C11_step_edge_ops.
+Print Assumptions C11_delete_node.
+Print Assumptions C11_delete_node_errors.
+Print Assumptions C11_add_node.
+Print Assumptions C11_add_node_refusals.
+Print Assumptions C11_edge_calls.
+Print Assumptions C11_history_is_generated.
